@@ -31,7 +31,7 @@ import (
 	"github.com/libp2p/go-libp2p/core/network"
 	"github.com/libp2p/go-libp2p/core/peer"
 	"github.com/libp2p/go-libp2p/core/protocol"
-	"github.com/libp2p/go-libp2p/x/verif/seqmc"
+	seqmc "github.com/libp2p/go-libp2p/x/verif/seqmcp"
 	"github.com/libp2p/go-libp2p/x/verif/vrep"
 )
 
@@ -65,7 +65,6 @@ type c07Checker struct {
 	thorough bool
 	blank    bool // the search over BlankHosts
 
-	probed  sync.Map // pkey -> struct{}: states whose opens have been enumerated
 	opens   atomic.Int64
 	tNew    atomic.Int64 // nanoseconds spent building fixtures / applying operations / probing states (summed over workers)
 	tApply  atomic.Int64
@@ -193,7 +192,11 @@ func (ck *c07Checker) probe(in *c07Inst, reqs []c07Req, restore bool, why string
 		v.Desc = fmt.Sprintf("%s | opens (%s): %v | state: %s", v.Desc, why, reqs, in.pkey)
 		return v
 	}
-	ck.classify(in, atts, window)
+	if why != "learn" {
+		// (opens made by Learn operations are checked like any other but not counted as cases: they are
+		// repeated by every replay of a history, in every shard)
+		ck.classify(in, atts, window)
+	}
 	return nil
 }
 
@@ -428,9 +431,6 @@ func (ck *c07Checker) visit(in *c07Inst) error {
 		ck.infra(in.broken)
 		return nil
 	}
-	if _, dup := ck.probed.LoadOrStore(in.pkey, struct{}{}); dup {
-		return nil
-	}
 	ck.pstates.Add(1)
 	for dk := range in.D {
 		for _, l := range c07Lists(ck.maxLen) {
@@ -484,7 +484,7 @@ func c07NewChecker(part string, blank bool) *c07Checker {
 }
 
 // c07Search runs one state search (BasicHosts, or BlankHosts) and writes its record.
-func c07Search(t *testing.T, part string, blank bool, depth int) {
+func c07Search(t *testing.T, part string, blank bool, depth int, deadline time.Time) {
 	ck := c07NewChecker(part, blank)
 	r := ck.r
 	r.Bounds["universe"] = c07U
@@ -504,56 +504,50 @@ func c07Search(t *testing.T, part string, blank bool, depth int) {
 	r.Bounds["connections"] = "direct and limited (Stat().Limited, opened with WithAllowLimitedConn)"
 	r.Bounds["concurrent_opens"] = 2
 
-	// the initial state (seqmc keys it without an Apply)
-	synctest.Test(t, func(*testing.T) {
-		in := c07NewInst(ck)
-		if err := ck.visit(in); err != nil {
-			v := err.(*seqmc.Vio)
-			r.Violate(v.Key, v.Desc, map[string]any{"search": part, "history": []string{}})
-		}
-		in.close()
-	})
-
 	alphabet := c07Alphabet(blank)
-	sp := &seqmc.Spec[*c07Inst, c07Op]{
+	sp := &seqmc.Spec[*c07Inst]{
 		Name: part,
 		New: func() *c07Inst {
 			t0 := c07RealNow()
 			defer func() { ck.tNew.Add(c07RealNow() - t0); ck.nNew.Add(1) }()
 			return c07NewInst(ck)
 		},
-		Close: func(in *c07Inst) { in.close() },
-		Ops:   func(in *c07Inst) []c07Op { return in.enabled(alphabet) },
-		Apply: func(in *c07Inst, op c07Op) error {
+		Close:   func(in *c07Inst) { in.close() },
+		NOps:    len(alphabet),
+		Enabled: func(in *c07Inst) []int { return in.enabled(alphabet) },
+		Apply: func(in *c07Inst, op int) error {
 			if in.broken != "" {
 				return nil
 			}
 			t0 := c07RealNow()
-			if err := in.apply(op); err != nil {
-				return err
-			}
-			t1 := c07RealNow()
-			ck.tApply.Add(t1 - t0)
-			defer func() { ck.tVisit.Add(c07RealNow() - t1) }()
+			defer func() { ck.tApply.Add(c07RealNow() - t0) }()
+			return in.apply(alphabet[op])
+		},
+		Key: func(in *c07Inst) string { return in.key },
+		// the outcome of an open depends on the listener's mux and on the dialers' knowledge, not on the
+		// identify snapshot: the opens are enumerated once per distinct (mux, knowledge) class
+		Class: func(in *c07Inst) string { return in.pkey },
+		Probe: func(in *c07Inst) error {
+			t0 := c07RealNow()
+			defer func() { ck.tVisit.Add(c07RealNow() - t0) }()
 			return ck.visit(in)
 		},
-		Key:      func(in *c07Inst) string { return in.key },
-		Show:     c07ShowOp,
+		Show:     func(op int) string { return c07ShowOp(alphabet[op]) },
 		Depth:    depth,
 		Bubble:   true,
 		T:        t,
-		Deadline: vrep.Deadline(),
+		Deadline: deadline,
 	}
 	st := seqmc.Run(sp)
 	seqmc.Fill(r, sp.Name, st)
 	r.Executions += ck.opens.Load()
 	r.Distinct = int64(len(ck.classes))
-	r.Note("states (mux order+kind, identify snapshot, knowledge of both dialers): %d; of these distinct (mux, knowledge) states whose opens were enumerated: %d; groups of opens: %d; opens: %d",
-		st.States, ck.pstates.Load(), ck.groups.Load(), ck.opens.Load())
-	r.Note("states per depth: %v", st.PerDepth)
-	r.Note("cost (real time summed over %d workers): %d fixtures built in %.1fs, operations applied in %.1fs, opens enumerated in %.1fs",
-		runtime.GOMAXPROCS(0), ck.nNew.Load(), float64(ck.tNew.Load())/1e9, float64(ck.tApply.Load())/1e9, float64(ck.tVisit.Load())/1e9)
-	if ck.opens.Load() == 0 {
+	r.Note("states (mux order+kind, identify snapshot, knowledge of both dialers): %d; distinct (mux, knowledge) classes whose opens are enumerated: %d; states per depth: %v; closed=%v",
+		st.States, st.Classes, st.PerDepth, st.Closed)
+	r.Note("shard %d of %d (GOMAXPROCS=%d): %d transitions and %d classes executed here; %d groups of opens, %d opens; real time: %d fixtures built in %.1fs, operations applied in %.1fs, opens enumerated in %.1fs",
+		st.Shard, st.Shards, runtime.GOMAXPROCS(0), st.Executed-st.Probed, st.Probed, ck.groups.Load(), ck.opens.Load(),
+		ck.nNew.Load(), float64(ck.tNew.Load())/1e9, float64(ck.tApply.Load())/1e9, float64(ck.tVisit.Load())/1e9)
+	if st.Probed > 0 && ck.opens.Load() == 0 {
 		r.Cap("no open was executed")
 	}
 	r.Flush()
@@ -572,9 +566,11 @@ func TestVerifC07(t *testing.T) {
 	if v, err := strconv.Atoi(os.Getenv("VERIF_C07_DEPTH")); err == nil && v > 0 {
 		depth = v // experiments only; the evidence reports the depth actually used
 	}
-	c07Search(t, "negotiation", false, depth)
+	// the BlankHost search (below) needs a few seconds: keep them
+	dl := vrep.Deadline()
+	c07Search(t, "negotiation", false, depth, dl.Add(-time.Until(dl)/10))
 	// BlankHosts have no identify, so the state is the listener's mux alone: finite, searched to closure.
-	c07Search(t, "blankhost", true, 1<<20)
+	c07Search(t, "blankhost", true, 1<<20, dl)
 }
 
 // c07Replay re-executes one recorded history (check.py --replay): the operations are applied to fresh hosts
@@ -621,12 +617,9 @@ func c07Replay(t *testing.T, path string) {
 			if verr = in.apply(o); verr != nil {
 				break
 			}
-			if i < len(rec.Replay.History)-1 {
-				ck.probed.Store(in.pkey, struct{}{})
-			}
+			_ = i
 		}
 		if verr == nil {
-			ck.probed.Delete(in.pkey)
 			fmt.Printf("replay: state %s\n", in.key)
 			verr = ck.visit(in)
 		}
